@@ -15,7 +15,7 @@ const B: &[&str] = &[
     "neg_subsec_millis", "neg_subsec_micros", "neg_subsec_nanos", "millis_out_of_range", "micros_out_of_range",
     "nanos_opt_none_below", "nanos_opt_none_above", "nanos_opt_edge_some", "systemtime_pre_epoch", "systemtime_post_epoch",
     "reverse_from_civil", "exhaustive_day_seconds", "exhaustive_millis_around_epoch", "pre_epoch", "i64_extreme",
-    "systemtime_local_zone_not_utc",
+    "systemtime_local_zone_not_utc", "deprecated_twins",
 ];
 const FLOOR: &[&str] = B;
 
@@ -607,6 +607,7 @@ pub fn run(ctx: &Ctx) -> Outcome {
             }
         }
     }
+    crate::props::twins::c02(ctx, &rep, bi("deprecated_twins"));
     // the system clock type and DateTime<Local> in a process whose local zone is not UTC (child
     // processes with TZ set): the conversion must keep the instant and show the zone's offset there
     {
